@@ -31,3 +31,15 @@ LowerLevel.vos LowerLevel.vok LowerLevel.required_vos: LowerLevel.v Collection.v
 StoreFacts.vo StoreFacts.glob StoreFacts.v.beautified StoreFacts.required_vo: StoreFacts.v Bytes.vo BytesFacts.vo Segment.vo SegmentFacts.vo Stack.vo StackFacts.vo Collection.vo CollectionFacts.vo Store.vo LowerLevel.vo
 StoreFacts.vio: StoreFacts.v Bytes.vio BytesFacts.vio Segment.vio SegmentFacts.vio Stack.vio StackFacts.vio Collection.vio CollectionFacts.vio Store.vio LowerLevel.vio
 StoreFacts.vos StoreFacts.vok StoreFacts.required_vos: StoreFacts.v Bytes.vos BytesFacts.vos Segment.vos SegmentFacts.vos Stack.vos StackFacts.vos Collection.vos CollectionFacts.vos Store.vos LowerLevel.vos
+FlatRun.vo FlatRun.glob FlatRun.v.beautified FlatRun.required_vo: FlatRun.v Collection.vo Store.vo LowerLevel.vo
+FlatRun.vio: FlatRun.v Collection.vio Store.vio LowerLevel.vio
+FlatRun.vos FlatRun.vok FlatRun.required_vos: FlatRun.v Collection.vos Store.vos LowerLevel.vos
+Prefix.vo Prefix.glob Prefix.v.beautified Prefix.required_vo: Prefix.v Bytes.vo BytesFacts.vo Segment.vo SegmentFacts.vo Stack.vo StackFacts.vo Collection.vo CollectionFacts.vo
+Prefix.vio: Prefix.v Bytes.vio BytesFacts.vio Segment.vio SegmentFacts.vio Stack.vio StackFacts.vio Collection.vio CollectionFacts.vio
+Prefix.vos Prefix.vok Prefix.required_vos: Prefix.v Bytes.vos BytesFacts.vos Segment.vos SegmentFacts.vos Stack.vos StackFacts.vos Collection.vos CollectionFacts.vos
+Theorems.vo Theorems.glob Theorems.v.beautified Theorems.required_vo: Theorems.v Bytes.vo BytesFacts.vo Segment.vo SegmentFacts.vo Stack.vo StackFacts.vo Collection.vo CollectionFacts.vo Store.vo LowerLevel.vo StoreFacts.vo Prefix.vo
+Theorems.vio: Theorems.v Bytes.vio BytesFacts.vio Segment.vio SegmentFacts.vio Stack.vio StackFacts.vio Collection.vio CollectionFacts.vio Store.vio LowerLevel.vio StoreFacts.vio Prefix.vio
+Theorems.vos Theorems.vok Theorems.required_vos: Theorems.v Bytes.vos BytesFacts.vos Segment.vos SegmentFacts.vos Stack.vos StackFacts.vos Collection.vos CollectionFacts.vos Store.vos LowerLevel.vos StoreFacts.vos Prefix.vos
+Refuted.vo Refuted.glob Refuted.v.beautified Refuted.required_vo: Refuted.v Bytes.vo Segment.vo Stack.vo Collection.vo
+Refuted.vio: Refuted.v Bytes.vio Segment.vio Stack.vio Collection.vio
+Refuted.vos Refuted.vok Refuted.required_vos: Refuted.v Bytes.vos Segment.vos Stack.vos Collection.vos
